@@ -21,6 +21,7 @@ def run(rep, tier):
                          '(not before start); _PositionInfo(start, end) of positions built from one index'),
         ('SPAN-convert-once', 'only raw spans are converted (objects finalised by a nested parse are left alone)'),
         ('TABLE-index', 'guarded table lookups'), ('TABLE-whole-text', 'tables from the whole text'),
+        ('DRIVER-coordinates', 'the driver never rebinds the text / position it was given while rule functions run'),
         ('TABLE-per-call', 'tables computed from the text of the call, not taken from a longer-lived store'),
         ('LINECOL-map', 'the tables have one entry per element; only a line feed starts a line; columns count from 1'),
         ('SPAN-writers', 'position_info is stored only by Seq._compile and _finalize_parse_info'),
@@ -36,6 +37,19 @@ def run(rep, tier):
         n += finalize.linecol_rules(fns, what, bad)     # the tables the spans are converted with (lemma shared with C09)
         vfound = []
         walkers.check_visit(fns['visit'], f'{what}:visit', lambda r, m: vfound.append((r, m)))
+        # the driver hands the caller's text and offsets to the rule functions and to the conversion
+        from .. import trampoline
+        import ast as _ast
+        dname, dfn, dcall = trampoline.find_trampoline(tree, what)
+        cc = load.call_constant()
+        for x in _ast.walk(dfn):
+            if isinstance(x, _ast.Compare) and isinstance(x.left, _ast.Subscript) \
+                    and isinstance(x.comparators[0], _ast.Constant):
+                cc = x.comparators[0].value
+        _, tbad, _ = trampoline.analyse(dfn, cc, bool(dfn.args.args and dfn.args.args[0].arg == '_ctx'), what)
+        for rule, msg in tbad:
+            if rule == 'DRIVER-coordinates':
+                rep.add(Finding(rule, f'{rel}:runtime', '', msg, f'{rel} ({what})'))
         rep.count('runtime copies analysed')
         rep.obligations += n
         rep.discharged += n - len(found)
